@@ -4,6 +4,8 @@
 // object reuse histories, another thread, another process with ASLR on/off, trailing bytes) and
 // every execution must give byte-identical output / identical ordered digests, and a successful
 // decode must consume exactly the stream.
+#include <dirent.h>
+#include <fstream>
 #include <malloc.h>
 #include <sys/personality.h>
 
@@ -77,8 +79,9 @@ static void MakeCase(Rng &r, Case *c, bool force_mesh = false, bool force_pc = f
 static std::string DigestStr(const std::pair<uint64_t, uint64_t> &d) { char b[40]; snprintf(b, sizeof b, "%016llx%016llx", (unsigned long long)d.first, (unsigned long long)d.second); return b; }
 
 // Decodes and returns "status|digest|remaining".
-static std::string DecodeSig(const char *data, size_t n, Decoder *reuse = nullptr) {
-  DecoderBuffer db;
+static std::string DecodeSig(const char *data, size_t n, Decoder *reuse = nullptr, DecoderBuffer *reuse_buffer = nullptr) {
+  DecoderBuffer local_db;
+  DecoderBuffer &db = reuse_buffer ? *reuse_buffer : local_db;
   db.Init(data, n);
   Decoder local;
   Decoder *dec = reuse ? reuse : &local;
@@ -97,7 +100,17 @@ static std::string DecodeSig(const char *data, size_t n, Decoder *reuse = nullpt
   return "ok:" + DigestStr(dg) + ":" + std::to_string(db.remaining_size());
 }
 
+static std::vector<std::string> g_legacy;  // /repo/testdata/*.drc: streams of older bitstream versions
+static void LoadLegacy() {
+  const std::string dir = vf::RepoRoot() + "/testdata";
+  std::vector<std::string> names;
+  if (DIR *d = opendir(dir.c_str())) { while (dirent *e = readdir(d)) { std::string n = e->d_name; if (n.size() > 4 && n.substr(n.size() - 4) == ".drc") names.push_back(n); } closedir(d); }
+  std::sort(names.begin(), names.end());
+  for (auto &n : names) { std::ifstream f(dir + "/" + n, std::ios::binary); std::string b((std::istreambuf_iterator<char>(f)), std::istreambuf_iterator<char>()); if (b.size() > 32 && b.size() < 200000) g_legacy.push_back(b); }
+}
+
 int main(int argc, char **argv) {
+  LoadLegacy();
   // Child mode: print encode hash + decode signature of one case, for the cross-process comparison.
   for (int i = 1; i < argc; ++i) if (std::string(argv[i]) == "--emit") {
     vf::Args a = vf::ParseArgs(argc, argv);
@@ -165,6 +178,10 @@ int main(int argc, char **argv) {
         Status st = c.g.is_mesh ? e.EncodeMeshToBuffer(*c.mesh, &junk) : e.EncodePointCloudToBuffer(*c.pc, &junk);
         if (!st.ok()) { rep.violation("encode-status-differs/reused-encoder-after-reset/" + cfg, desc, arts); return; }
         if (differs("reused-encoder-after-reset+appended-buffer", std::string(junk.data() + before, junk.size() - before))) return;
+        // the same EncoderBuffer object again after Clear()
+        junk.Clear();
+        st = c.g.is_mesh ? e.EncodeMeshToBuffer(*c.mesh, &junk) : e.EncodePointCloudToBuffer(*c.pc, &junk);
+        if (!st.ok() || differs("reused-encoder-buffer-after-clear", std::string(junk.data(), junk.size()))) return;
         // same encoder, same options, encode twice
         EncoderBuffer b2;
         st = c.g.is_mesh ? e.EncodeMeshToBuffer(*c.mesh, &b2) : e.EncodePointCloudToBuffer(*c.pc, &b2);
@@ -262,6 +279,38 @@ int main(int argc, char **argv) {
       std::string d = DecodeSig(ref.bytes.data(), ref.bytes.size(), &dec);
       if (d != dref) { rep.violation("decode-differs/reused-decoder/" + cfg, desc + " " + d + " vs " + dref, arts); return; }
       rep.count("decode_equal/reused-decoder");
+      // reused DecoderBuffer object (Init() again on the same object): after a stream of the other geometry type,
+      // after a legacy-version stream, after a truncated stream - with a fresh and with a reused Decoder.
+      {
+        DecoderBuffer db;
+        Decoder dec2;
+        Case other2;
+        MakeCase(r, &other2, c.g.is_mesh, !c.g.is_mesh);  // the other geometry type: a different current bitstream version
+        vf::EncResult oe2 = vf::Encode(other2.g, *other2.pc, other2.mesh.get(), other2.o);
+        std::string hist;
+        const int nh = 1 + static_cast<int>(r.below(3));
+        for (int h = 0; h < nh; ++h) {
+          const int kind = static_cast<int>(r.below(4));
+          Decoder *hd = r.below(2) ? &dec2 : nullptr;
+          if (kind == 0 && oe2.status.ok()) { DecodeSig(oe2.bytes.data(), oe2.bytes.size(), hd, &db); hist += "other-type,"; }
+          else if (kind == 1 && !g_legacy.empty()) { const std::string &l = g_legacy[r.below(g_legacy.size())]; DecodeSig(l.data(), l.size(), hd, &db); hist += "legacy,"; }
+          else if (kind == 2 && !g_legacy.empty()) { const std::string &l = g_legacy[r.below(g_legacy.size())]; DecodeSig(l.data(), 11 + r.below(l.size() - 11), hd, &db); hist += "legacy-truncated,"; }
+          else { DecodeSig(garbage.data(), garbage.size(), hd, &db); hist += "truncated,"; }
+        }
+        const bool reuse_dec = r.below(2);
+        std::string d2 = DecodeSig(ref.bytes.data(), ref.bytes.size(), reuse_dec ? &dec2 : nullptr, &db);
+        if (d2 != dref) { rep.violation("decode-differs/reused-decoder-buffer/" + cfg, desc + " history=" + hist + (reuse_dec ? " reused-decoder " : " fresh-decoder ") + d2 + " vs " + dref, arts); return; }
+        rep.count("decode_equal/reused-decoder-buffer");
+        // and the reverse: a legacy stream decodes the same through a buffer that has just decoded the current stream
+        if (!g_legacy.empty()) {
+          const size_t li = r.below(g_legacy.size());
+          const std::string &l = g_legacy[li];
+          const std::string lref = DecodeSig(l.data(), l.size());
+          const std::string lgot = DecodeSig(l.data(), l.size(), reuse_dec ? &dec2 : nullptr, &db);
+          if (lgot != lref) { rep.violation("decode-differs/reused-decoder-buffer/legacy-after-current", desc + " legacy#" + std::to_string(li) + " " + lgot + " vs " + lref, arts); return; }
+          rep.count("decode_equal/legacy-after-current");
+        }
+      }
       // trailing bytes: 1..64 random bytes, or a second valid stream
       std::string tail;
       if (r.below(3) == 0 && oe.status.ok()) tail = oe.bytes; else { size_t n = 1 + r.below(64); for (size_t i = 0; i < n; ++i) tail += static_cast<char>(r.below(256)); }
